@@ -14,6 +14,7 @@ import (
 // Anchor names one function whose fill sites must be decided.
 type Anchor struct {
 	Pkg, Name string
+	Mirror    bool // the function must reverse the order of the elements
 }
 
 // lin is a linear form a*LEN + b*IDX + c over the loop index and the length.
@@ -88,8 +89,11 @@ func assignsOnEveryPath(info *types.Info, list []ast.Stmt, x, idx types.Object, 
 					continue
 				}
 				f := linear(info, ix.Index, idx, isLen)
-				if f.ok && ((f.a == 0 && f.b == 1 && f.c == 0) || (f.a == 1 && f.b == -1 && f.c == -1)) {
+				if f.ok && f.a == 0 && f.b == 1 && f.c == 0 {
 					return true, ""
+				}
+				if f.ok && f.a == 1 && f.b == -1 && f.c == -1 {
+					return true, "mirror"
 				}
 				return false, "element stored at an index that is neither the loop index nor its mirror image"
 			}
@@ -156,8 +160,10 @@ func leaves(n ast.Node) bool {
 // informational only.
 func Fill(p *core.Prog, r *core.Report, anchors []Anchor) {
 	isAnchor := map[string]bool{}
+	mirror := map[string]bool{}
 	for _, a := range anchors {
 		isAnchor[a.Pkg+"."+a.Name] = true
+		mirror[a.Pkg+"."+a.Name] = a.Mirror
 		if p.FuncDecl(a.Pkg, a.Name) == nil {
 			r.Und("FILL", core.Short(a.Pkg)+"."+a.Name+"|anchor", "-", "anchor-unresolved: function not found")
 		}
@@ -195,7 +201,10 @@ func Fill(p *core.Prog, r *core.Report, anchors []Anchor) {
 				n++
 				src := lc.Args[0]
 				key := fmt.Sprintf("%s|make#%d(%s)", fn, n, types.ExprString(mk.Args[0]))
-				verdict, detail := decideFill(info, fd, as, x, src)
+				verdict, detail, idiom := decideFill(info, fd, as, x, src)
+				if anchor && mirror[pkg+"."+name] && verdict == core.OK && (idiom == "range-identity" || idiom == "copy") && !hasTwoPointer(info, fd, x) {
+					verdict, detail = core.Violation, "the elements are stored in their original order although this function must mirror it: parts of a reverse-strand location come out in the wrong order and Head()/Tail() name the wrong ends"
+				}
 				if anchor {
 					r.Fn(fn)
 					switch verdict {
@@ -215,9 +224,9 @@ func Fill(p *core.Prog, r *core.Report, anchors []Anchor) {
 	}
 }
 
-func decideFill(info *types.Info, fd *ast.FuncDecl, mk *ast.AssignStmt, x types.Object, src ast.Expr) (string, string) {
+func decideFill(info *types.Info, fd *ast.FuncDecl, mk *ast.AssignStmt, x types.Object, src ast.Expr) (string, string, string) {
 	isLen := func(e ast.Expr) bool { return sameExpr(info, e, src) || core.ObjOf(info, e) == x }
-	var verdict, detail string
+	var verdict, detail, idiom string
 	ast.Inspect(fd.Body, func(n ast.Node) bool {
 		if verdict != "" {
 			return false
@@ -225,7 +234,7 @@ func decideFill(info *types.Info, fd *ast.FuncDecl, mk *ast.AssignStmt, x types.
 		switch s := n.(type) {
 		case *ast.CallExpr:
 			if s.Pos() > mk.End() && core.IsBuiltin(info, s, "copy") && len(s.Args) == 2 && core.ObjOf(info, s.Args[0]) == x && sameExpr(info, s.Args[1], src) {
-				verdict, detail = core.OK, "copy(x, src) fills all len(src) elements"
+				verdict, detail, idiom = core.OK, "copy(x, src) fills all len(src) elements", "copy"
 			}
 		case *ast.RangeStmt:
 			if s.Pos() < mk.End() || !sameExpr(info, s.X, src) || s.Key == nil {
@@ -234,7 +243,10 @@ func decideFill(info *types.Info, fd *ast.FuncDecl, mk *ast.AssignStmt, x types.
 			idx := core.ObjOf(info, s.Key)
 			ok, why := assignsOnEveryPath(info, s.Body.List, x, idx, isLen)
 			if ok {
-				verdict, detail = core.OK, "range over the source stores one element per index on every path"
+				verdict, detail, idiom = core.OK, "range over the source stores one element per index on every path", "range-identity"
+				if why == "mirror" {
+					idiom = "range-mirror"
+				}
 			} else {
 				verdict, detail = core.Violation, "range over the source does not store every element: "+why+"; the skipped slots stay nil/zero"
 			}
@@ -243,15 +255,117 @@ func decideFill(info *types.Info, fd *ast.FuncDecl, mk *ast.AssignStmt, x types.
 				return true
 			}
 			if v, d := twoPointer(info, s, x, isLen); v != "" {
-				verdict, detail = v, d
+				verdict, detail, idiom = v, d, "two-pointer"
 			}
 		}
 		return true
 	})
 	if verdict == "" {
-		return core.Undecided, "the slice is not filled by one of the recognised idioms (range over the source, copy, two-pointer loop)"
+		return core.Undecided, "the slice is not filled by one of the recognised idioms (range over the source, copy, two-pointer loop)", ""
 	}
-	return verdict, detail
+	return verdict, detail, idiom
+}
+
+func hasTwoPointer(info *types.Info, fd *ast.FuncDecl, x types.Object) bool {
+	found := false
+	isLen := func(e ast.Expr) bool { return core.ObjOf(info, e) == x }
+	ast.Inspect(fd.Body, func(n ast.Node) bool {
+		if fs, ok := n.(*ast.ForStmt); ok {
+			if v, _ := twoPointer(info, fs, x, isLen); v != "" {
+				found = true
+			}
+		}
+		return true
+	})
+	return found
+}
+
+// ReverseMap decides REVERSE-MAP: a two-pointer loop over a slice whose stored
+// values are not the plain swapped elements transforms the elements while it
+// reverses them, so it must also visit the middle index (l <= r).
+func ReverseMap(p *core.Prog, r *core.Report, anchors []Anchor) {
+	for _, a := range anchors {
+		fd := p.FuncDecl(a.Pkg, a.Name)
+		fn := core.Short(a.Pkg) + "." + a.Name
+		if fd == nil || fd.Body == nil {
+			r.Und("REVERSE-MAP", fn+"|anchor", "-", "anchor-unresolved")
+			continue
+		}
+		info := p.Info(a.Pkg)
+		n := 0
+		ast.Inspect(fd.Body, func(m ast.Node) bool {
+			fs, ok := m.(*ast.ForStmt)
+			if !ok {
+				return true
+			}
+			init, ok := fs.Init.(*ast.AssignStmt)
+			if !ok || len(init.Lhs) != 2 || len(init.Rhs) != 2 {
+				return true
+			}
+			// l, r := 0, len(X)-1
+			be, ok := ast.Unparen(init.Rhs[1]).(*ast.BinaryExpr)
+			if !ok || be.Op != token.SUB {
+				return true
+			}
+			lc, ok := ast.Unparen(be.X).(*ast.CallExpr)
+			if !ok || !core.IsBuiltin(info, lc, "len") {
+				return true
+			}
+			if one, ok := core.ConstInt(info, be.Y); !ok || one != 1 {
+				return true
+			}
+			if z, ok := core.ConstInt(info, init.Rhs[0]); !ok || z != 0 {
+				return true
+			}
+			l, rr := core.ObjOf(info, init.Lhs[0]), core.ObjOf(info, init.Lhs[1])
+			n++
+			key := fmt.Sprintf("%s|two-pointer#%d", fn, n)
+			transforms := false
+			for _, st := range fs.Body.List {
+				as, ok := st.(*ast.AssignStmt)
+				if !ok {
+					continue
+				}
+				for i, lh := range as.Lhs {
+					ix, ok := ast.Unparen(lh).(*ast.IndexExpr)
+					if !ok || i >= len(as.Rhs) {
+						continue
+					}
+					li := core.ObjOf(info, ix.Index)
+					if li != l && li != rr {
+						continue
+					}
+					// plain swap: RHS is X[other index]
+					rx, ok := ast.Unparen(as.Rhs[i]).(*ast.IndexExpr)
+					if !ok || core.ObjOf(info, rx.X) != core.ObjOf(info, ix.X) {
+						transforms = true
+						continue
+					}
+					ri := core.ObjOf(info, rx.Index)
+					if !((li == l && ri == rr) || (li == rr && ri == l)) {
+						transforms = true
+					}
+				}
+			}
+			cond, _ := ast.Unparen(fs.Cond).(*ast.BinaryExpr)
+			inclusive := false
+			if cond != nil {
+				cl, cr := core.ObjOf(info, cond.X), core.ObjOf(info, cond.Y)
+				if (cl == l && cr == rr && cond.Op == token.LEQ) || (cl == rr && cr == l && cond.Op == token.GEQ) {
+					inclusive = true
+				}
+			}
+			switch {
+			case !transforms:
+				r.Ok("REVERSE-MAP", key, p.Pos(fs.Pos()), "plain in-place reversal: the middle element may stay where it is")
+			case inclusive:
+				r.Ok("REVERSE-MAP", key, p.Pos(fs.Pos()), "reverses and transforms every element including the middle one")
+			default:
+				r.Bad("REVERSE-MAP", key, p.Pos(fs.Pos()), "the loop transforms the elements while it reverses them but stops before the pointers meet: for every odd length the middle element keeps its untransformed value (e.g. is not complemented)")
+			}
+			return true
+		})
+	}
 }
 
 // twoPointer recognises `for l, r := 0, len(x)-1; l OP r; l, r = l+1, r-1 { x[l], x[r] = ... }`.
